@@ -80,8 +80,14 @@ def _check_grid(seq, T_expected, dt, ev, mod, config_cls, obs_cls):
         (second if any(abs(e - f) <= 1e-12 for f in first) else first).append(e)
     import emu_sv
 
-    observables = [obs_cls(evaluation_times=first)] + ([emu_sv.CorrelationMatrix(evaluation_times=second)] if second else [])
-    cfg = config_cls(dt=dt, observables=observables, with_modulation=mod, log_level=logging.CRITICAL)
+    kw = {}
+    if len(first) >= 2 and not second:
+        # an observable following the config default (first time) listed BEFORE one that brings its own times: both sets must reach the grid
+        observables = [obs_cls(evaluation_times=None), emu_sv.CorrelationMatrix(evaluation_times=first[1:])]
+        kw["default_evaluation_times"] = first[:1]
+    else:
+        observables = [obs_cls(evaluation_times=first)] + ([emu_sv.CorrelationMatrix(evaluation_times=second)] if second else [])
+    cfg = config_cls(dt=dt, observables=observables, with_modulation=mod, log_level=logging.CRITICAL, **kw)
     pd = PulserData(sequence=seq, config=cfg, dt=dt)
     tt = list(pd.target_times)
     T = float(seq.get_duration(include_fall_time=mod))
